@@ -463,6 +463,9 @@ class Sym(Val):
             fty = self.tdef.field_type(variant, idx, self.ty_text)
             nm = f"{self.name}.{variant + '.' if variant else ''}{idx}"
             self._children[key] = self.ex.sym_value(fty, nm, self.tdef.modpath)
+            hook = getattr(self.ex, "child_axiom", None)
+            if hook:
+                hook(self, variant, idx, self._children[key])
         return self._children[key]
 
 
@@ -581,11 +584,22 @@ class Executor:
 
     def _block(self, fn, frame, bb, st, subst, outs, depth, steps):
         while True:
-            if steps > 600:
-                raise Unsupported(f"more than 600 blocks on one path in {fn.name} (loop?)")
+            if steps > getattr(self, "max_steps", 600):
+                raise Unsupported(f"more than {getattr(self, 'max_steps', 600)} blocks on one path in {fn.name} (loop?)")
             self.paths += 1
             if self.paths > self.max_paths:
                 raise PathExplosion(fn.name)
+            lb = getattr(self, "loop_bound", None)
+            if lb is not None:
+                key = f"visit:{frame}:{bb}"
+                c = st.facts.get(key, 0) + 1
+                st.facts[key] = c
+                if c > lb:
+                    # bounded loop unrolling: deeper iterations are outside the stated bound (path dropped, recorded)
+                    if not hasattr(self, "truncated"):
+                        self.truncated = set()
+                    self.truncated.add("loop bound in " + fn.name)
+                    return
             blk = fn.blocks[bb]
             for stt in blk.stmts:
                 self._stmt(fn, frame, stt, st, subst)
@@ -834,16 +848,9 @@ class Executor:
             elif pr[0] == "constindex":
                 v = v.items[pr[1]] if isinstance(v, Tup) else self._unsup(f"const index on {v!r}")
             elif pr[0] == "index" and isinstance(v, Sym):
+                import mirx as _mirx
                 idx = self.deref(loc.get(pr[1]), st)
-                key = ("elem", idx.term if isinstance(idx, Scalar) else repr(idx))
-                if key not in v._children:
-                    et = re.sub(r"^&\s*('\w+\s+)?(mut\s+)?", "", v.ty_text.strip())
-                    em = re.match(r"^\[(.*?)(?:; \d+)?\]$", et) or re.match(r"^(?:std::vec::)?Vec<(.*)>$", et)
-                    if not em:
-                        raise Unsupported(f"indexing into {v!r} of type {v.ty_text}")
-                    self.sym_counter += 1
-                    v._children[key] = self.sym_value(em.group(1), f"{v.name}.at{self.sym_counter}", v.tdef.modpath if v.tdef else None)
-                v = v._children[key]
+                v = _mirx.seq_elem_at(self, v, idx.term if isinstance(idx, Scalar) else repr(idx))
             else:
                 raise Unsupported(f"projection {pr}")
         return v
@@ -886,6 +893,11 @@ class Executor:
             return self._store(tgt.frame, Place(tgt.place.local, tuple(tgt.place.proj) + tuple(proj[1:])), val, st)
         if proj and proj[0] == ("deref",):
             return self._store(frame, Place(place.local, tuple(proj[1:])), val, st)
+        cur0 = loc.get(place.local)
+        if isinstance(cur0, Adt) and cur0.ty == "BoxUninit" and all(pr[0] == "field" for pr in proj):
+            # initialisation of the box's contents through MaybeUninit / ManuallyDrop / MaybeDangling wrappers
+            loc[place.local] = Adt("BoxUninit", None, [val])
+            return
         if len(proj) == 1 and proj[0][0] == "field":
             cur = loc.get(place.local)
             if isinstance(cur, Tup):
@@ -936,7 +948,7 @@ class Executor:
             return Unit()
         item = self.p.fns.get(c) or self.p.fns.get("incan_core::" + c)
         if item is None:
-            pm = re.match(r"^(?:.*::)?(\w+)::promoted\[(\d+)\]$", c)
+            pm = re.match(r"^(?:.*::)?(\w+(?:::\{closure#\d+\})*)::promoted\[(\d+)\]$", c)
             if pm:
                 suffix = f"::{pm.group(1)}::promoted[{pm.group(2)}]"
                 cands = [f for n, f in self.p.fns.items() if n.endswith(suffix) and getattr(f, "is_const", False)]
@@ -984,8 +996,12 @@ class Executor:
         rhs = rhs.strip()
         m = re.match(r"^(.*) as (.+?) \((\w+)(?:\(.*\))?\)$", rhs)
         if m and m.group(1).startswith(("copy ", "move ", "const ")):
-            v = self.deref(self._operand(fn, frame, parse_operand(m.group(1)), st, subst), st)
+            op0 = parse_operand(m.group(1))
+            v = self.deref(self._operand(fn, frame, op0, st, subst), st)
             kind = m.group(3)
+            if kind == "Transmute" and isinstance(v, Adt) and v.ty == "BoxUninit" and op0.kind in ("copy", "move"):
+                # `Box::new_uninit()` written through its raw pointer (expansion of `vec![x]`): point at the box's local
+                return Ref(frame, Place(op0.place.local, tuple(pr for pr in op0.place.proj if pr[0] != "field")))
             if kind == "IntToFloat":
                 return S("fp", e.int_to_fp(v))
             if kind in ("PointerCoercion", "Transmute", "PtrToPtr", "IntToInt") and not (isinstance(v, Scalar) and v.sort == "fp"):
@@ -998,6 +1014,10 @@ class Executor:
         if m and m.group(1) == "PtrMetadata":
             # length of a slice we do not model: an arbitrary non-negative value, the same for the same slice
             a = self.deref(self._operand(fn, frame, parse_operand(m.group(2)), st, subst), st)
+            if isinstance(a, Sym) and ("len:" + a.name) in st.facts:
+                return S("int", e.int_const(st.facts["len:" + a.name]), 64, False)      # a modelled sequence: its length on this path
+            if isinstance(a, Adt) and a.ty == "Vec" and a.variant == "lit":
+                return S("int", e.int_const(len(a.fields)), 64, False)
             key = ("len", id(a) if not isinstance(a, Sym) else a.name)
             if not hasattr(self, "slice_lens"):
                 self.slice_lens = {}
@@ -1080,6 +1100,26 @@ class Executor:
             ty, variant = split_variant(path, hint_name)
             return Adt(ty, variant, fields)
         m = re.match(r"^([\w:<>', &\[\]*]+?)\((.*)\)$", rhs)
+        if m and m.group(1).count("<") != m.group(1).count(">"):
+            # the first `(` sits inside the generic arguments (`Result::<(A, B), E>::Ok(x)`): split at the first `(` outside `<..>`
+            depth, cut = 0, None
+            for i_, ch in enumerate(rhs):
+                if ch == "<":
+                    depth += 1
+                elif ch == ">" and i_ > 0 and rhs[i_ - 1] != "-":
+                    depth -= 1
+                elif ch == "(" and depth == 0:
+                    cut = i_
+                    break
+            m = re.match(r"^(.*)$", rhs[:cut]) if cut is not None and rhs.endswith(")") else None
+            if m:
+                class _M:
+                    def __init__(self, a, b):
+                        self.a, self.b = a, b
+
+                    def group(self, k):
+                        return self.a if k == 1 else self.b
+                m = _M(rhs[:cut], rhs[cut + 1:-1])
         if m and not rhs.startswith(("copy ", "move ", "const ")):
             path = strip_generics(m.group(1).strip())
             vals = [self._operand(fn, frame, parse_operand(x), st, subst) for x in split_top(m.group(2))]
@@ -1144,6 +1184,17 @@ class Executor:
                 return S("bool", f"(not (fp.eq {x} {y}))")
             raise Unsupported("fp binop " + op)
         x, y = a.term, b.term
+        lx, ly = _int_lit(x), _int_lit(y)
+        if lx is not None and ly is not None and e.int_mode == "int":
+            # constant folding (loop counters of macro expansions): keeps concrete control flow concrete
+            if op in ("Eq", "Ne", "Lt", "Le", "Gt", "Ge"):
+                v = {"Eq": lx == ly, "Ne": lx != ly, "Lt": lx < ly, "Le": lx <= ly, "Gt": lx > ly, "Ge": lx >= ly}[op]
+                return S("bool", "true" if v else "false")
+            if op in ("AddWithOverflow", "SubWithOverflow", "Add", "Sub", "AddUnchecked", "SubUnchecked"):
+                v = lx + ly if op.startswith("Add") else lx - ly
+                if e.imin() <= v <= e.imax() and (a.signed or v >= 0):
+                    res = S("int", e.int_const(v), a.bits, a.signed)
+                    return Tup([res, S("bool", "false")]) if op.endswith("WithOverflow") else res
         if op in ("Eq", "Ne", "Lt", "Le", "Gt", "Ge"):
             return S("bool", e.icmp(op, x, y))
         if op in ("AddWithOverflow", "SubWithOverflow", "MulWithOverflow"):
@@ -1168,6 +1219,14 @@ class _Down(Val):
 
     def __repr__(self):
         return f"({self.inner!r} as {self.variant})"
+
+
+def _int_lit(t):
+    m = re.fullmatch(r"-?\d+", t)
+    if m:
+        return int(t)
+    m = re.fullmatch(r"\(- (\d+)\)", t)
+    return -int(m.group(1)) if m else None
 
 
 def type_head(t):
